@@ -186,6 +186,9 @@ class GMRF(Distribution):
             raise NotImplementedError("Gradient not implemented for distribution {} with geometry {}".format(self,self.geometry))
 
         if not callable(self.mean): # for prior
+            # Non-positive precision: not a distribution (logpdf is nan or -inf), report nan as for points outside a support
+            if np.any(np.asarray(self.prec) <= 0):
+                return x*np.nan
             return -(self.prec*self._prec_op) @ (x-self.mean)
         else:
             raise NotImplementedError("Gradient not implemented for mean {}".format(type(self.mean)))
